@@ -60,7 +60,32 @@ def make_bad(kind: str) -> Any:
     return _RaisingModel()
 
 
+def expand(w: Any) -> Any:
+    """{"$big": n} -> a string of n characters; {"$deep": n} -> an object nested n levels; {"$int": "..."} -> that integer"""
+    if isinstance(w, dict):
+        if set(w.keys()) == {"$big"}:
+            return ("x\u00e9" * (w["$big"] // 2 + 1))[: w["$big"]]
+        if set(w.keys()) == {"$deep"}:
+            d: Dict[str, Any] = {}
+            cur = d
+            for _ in range(w["$deep"]):
+                cur["k"] = {}
+                cur = cur["k"]
+            return d
+        if set(w.keys()) == {"$int"}:
+            return int(w["$int"])
+        return {k: expand(v) for k, v in w.items()}
+    if isinstance(w, list):
+        return [expand(x) for x in w]
+    return w
+
+
 def build_item(spec: List[Any]) -> Tuple[Any, Optional[Any]]:
+    spec = [spec[0]] + [expand(x) for x in spec[1:]]
+    return _build_item(spec)
+
+
+def _build_item(spec: List[Any]) -> Tuple[Any, Optional[Any]]:
     """(object to send, expected decoded value or None when unserialisable)."""
     import chuk_mcp.protocol.messages.json_rpc_message as J
 
@@ -152,7 +177,12 @@ def check(case: Dict[str, Any]) -> Outcome:
             client = StdioClient(stdio_params())
             async with client:
                 _r, w = client.get_streams()
-                for obj, _ in built:
+                inbound = case.get("inbound", [])
+                if inbound:
+                    client.set_protocol_version("2025-06-18")  # batches from the server are answered with -32600 on stdin
+                for k_, (obj, _) in enumerate(built):
+                    if k_ in inbound:
+                        procs[0].stdout.feed(b'[{"jsonrpc":"2.0","method":"notifications/message","params":{"level":"info","data":1}}]\n')
                     await w.send(obj)
                 await asyncio.sleep(0.05)
                 state["closed_before"] = procs[0].stdin.closed
@@ -172,10 +202,11 @@ def check(case: Dict[str, Any]) -> Outcome:
 
     expected = [w for _, w in built if w is not None]
     bad_then_good = any(b[1] is None and any(x[1] is not None for x in built[i + 1 :]) for i, b in enumerate(built))
-    raw_break = any(w is not None and any(c in json.dumps(w, ensure_ascii=False) for c in ("\\n", "\\r", " ", "\u0085")) for _, w in built)
-    nested_null = any(w is not None and "null" in json.dumps(w) for _, w in built)
-    out.nontrivial = bad_then_good or raw_break or nested_null
-    out.classes = tuple(c for c, v in (("bad-then-good", bad_then_good), ("raw-line-break-char", raw_break), ("nested-null", nested_null)) if v) + (f"items:{min(len(items), 12)}",) + (("real-child",) if case.get("real") else ())
+    raw_break = any(w is not None and len(json.dumps(w)) < 20000 and any(c in json.dumps(w, ensure_ascii=False) for c in ("\\n", "\\r", " ", "\u0085")) for _, w in built)
+    nested_null = any(w is not None and "null" in json.dumps(w)[:20000] for _, w in built)
+    out.nontrivial = bad_then_good or raw_break or nested_null or bool(case.get("inbound"))
+    out.classes = tuple(c for c, v in (("bad-then-good", bad_then_good), ("raw-line-break-char", raw_break), ("nested-null", nested_null), ("inbound-batches", bool(case.get("inbound"))),
+                                        ("huge-line", any(w is not None and len(json.dumps(w)) > 65536 for _, w in built))) if v) + (f"items:{min(len(items), 12)}",) + (("real-child",) if case.get("real") else ())
 
     data: bytes = state.get("data", b"")
     if state.get("closed_before"):
@@ -188,6 +219,25 @@ def check(case: Dict[str, Any]) -> Outcome:
     if b"\r" in data:
         out.fail("raw-carriage-return-in-output", repr(data[:200]))
     lines = data.split(b"\n")[:-1] if data else []
+    n_inbound = len([k for k in case.get("inbound", []) if k < len(built)]) if not case.get("real") else 0
+    if n_inbound:
+        # the reader task answers each inbound batch with one -32600 line on the same stdin; every line
+        # must still be whole, and the remaining lines are the messages
+        keep, rejections = [], 0
+        for ln in lines:
+            try:
+                v_ = json.loads(ln.decode("utf-8"))
+            except Exception:
+                out.fail("line-torn-by-a-concurrent-writer", f"not JSON: {ln[:120]!r} ... ({len(ln)} bytes)")
+                return out
+            if isinstance(v_, dict) and v_.get("id") is None and isinstance(v_.get("error"), dict) and v_["error"].get("code") == -32600:
+                rejections += 1
+            else:
+                keep.append(ln)
+        if rejections != n_inbound:
+            out.fail("batch-rejection-lines-missing-or-duplicated", f"{rejections} rejection lines for {n_inbound} inbound batches")
+            return out
+        lines = keep
     if len(lines) != len(expected):
         if len(lines) < len(expected):
             # which one is missing? if everything after a bad item is missing the writer stopped
@@ -262,8 +312,27 @@ def item(draw) -> List[Any]:
     return ["bad", draw(st.sampled_from(BAD_KINDS[:6]))]
 
 
-def cases():
-    return st.lists(item(), min_size=1, max_size=12).map(lambda its: {"items": its})
+@st.composite
+def cases(draw):
+    its = draw(st.lists(item(), min_size=1, max_size=12))
+    # unusual but valid payloads: integers beyond 64 bits, lines larger than 64 KiB, deep nesting (plain dicts only)
+    for it in its:
+        if it[0] in ("typed", "dict", "str") and isinstance(it[-1] if it[0] == "dict" else it[2 if it[0] == "typed" else 1], dict):
+            w = it[2] if it[0] == "typed" else it[1]
+            r = draw(st.integers(0, 11))
+            tgt = w.get("params") if isinstance(w.get("params"), dict) else (w.get("result") if isinstance(w.get("result"), dict) else None)
+            if tgt is None:
+                continue
+            if r == 0:
+                tgt["big-int"] = {"$int": draw(st.sampled_from([str(2**70), str(-(2**70)), "1" + "0" * 40]))}
+            elif r == 1:
+                tgt["big-text"] = {"$big": draw(st.sampled_from([66000, 70000, 140000]))}
+            elif r == 2 and it[0] == "dict":
+                tgt["deep"] = {"$deep": draw(st.sampled_from([100, 260, 300]))}
+    case: Dict[str, Any] = {"items": its}
+    if draw(st.integers(0, 3)) == 0:
+        case["inbound"] = sorted(set(draw(st.lists(st.integers(0, len(its) - 1), min_size=1, max_size=3))))
+    return case
 
 
 def job_hyp(col: Collector, seed: int, tier: str, shard: int, n: int) -> None:
